@@ -21,7 +21,9 @@ RULE = ("A: libFuzzer (custom line/token/number mutator + dictionary of keywords
         "(RunString, AccumulateLine*+RunAccumulated, RunFile, bytes as RunFile/LoadDatabase file name) and the string/file switches. "
         "B: Hypothesis picks 1-3 valid base blocks or grammar-built blocks and applies 0-3 structural mutations each (wrong/duplicated/missing "
         "options, unknown species/phases/elements, undefined entity numbers in USE/COPY/MIX/RUN_CELLS/*_MODIFY, extreme numbers, truncated or "
-        "broken BASIC, wrong keyword), run through RunString/RunAccumulated/RunFile on a new instance. C: enumerated fault list. "
+        "broken BASIC, wrong keyword), run through RunString/RunAccumulated/RunFile on a new instance that has small.dat or (1 case in 8) one "
+        "of 13 shipped databases loaded. C: enumerated fault list (unreadable database/input/INCLUDE$ files x entry points, 5 output sinks x 6 "
+        "unopenable path kinds x 3 entry points, file names inside the input text), each followed by reload + probe. "
         "Oracle per call (inside the sanitizer-built target): returns (no signal, ASan/UBSan report, escaping exception, exit); rc!=0 <=> error "
         "string non-empty <=> error line count>0; warning string/line count agree; markers planted with AddError/AddWarning before the call are "
         "gone; after a failed call LoadDatabaseString returns 0 and a probe run equals a fresh instance's answer bitwise. "
@@ -34,10 +36,10 @@ ASSUMPTIONS = ["AddressSanitizer + UndefinedBehaviorSanitizer (clang 14, -O1) re
                "libFuzzer timeouts (-timeout) and out-of-memory stops (-rss_limit_mb=4096, single allocations > 4 GB, ASan allocation-size-too-big) are resource limits of the experiment, not violations",
                "leaks are not violations (DESIGN section 4 rule 9): -detect_leaks=0",
                "inputs naming /dev /proc /sys files, absolute paths or '..' inside input text are outside the experiment (the sandbox runs as root); counted as skipped",
-               "inputs matching a recorded known finding are skipped by known_trigger() in shim/fuzz_common.h (counted as skipped_known_*)",
+               "recorded known findings are excluded, each with a strict replay in replays/C08/known/: UBSan reports whose (check kind, file, enclosing function) is in shim/c08_known_ub.inc are counted (known_ub_*) and the execution continues; an execution that dies with a signature listed in vp/c08_known.json (sanitizer kind @ function:file) is counted (known_finding_stops) and not reported; any other report is a violation",
                "the harness reads three engine counters (simulation, state, keycount) through the protected PhreeqcPtr for classification only"]
 TECHNIQUE = "coverage-guided fuzzing (libFuzzer, ASan+UBSan) + grammar-based property testing (Hypothesis) + enumerated fault injection, oracle inside the target"
-LEVEL_TEXT = ("Exploration: tens of thousands (quick) to about a million (thorough) sanitizer-checked executions per run, each under the four-clause oracle; "
+LEVEL_TEXT = ("Exploration: about 20 000 (quick) to 450 000 (thorough) sanitizer-checked executions per run, each under the four-clause oracle; "
               "the enumerated fault list is complete for the listed path kinds x streams x entry points but the property is universally quantified "
               "over byte sequences, so this is evidence, not proof.")
 FLOORS = {"quick": 6000, "thorough": 100000}
@@ -108,7 +110,7 @@ def classify(text, rc):
     if m:
         sig = "oracle:" + m.group(1)
         if m.group(1) == "escaping_exception":      # name the exception: "... threw std::exception: <what()>"
-            w = re.search(r"threw (?:a )?([\w:-]+(?: exception)?)(?:: (.*))?", m.group(2))
+            w = re.search(r"threw (std::exception|a non-standard exception)(?:: (.*))?", m.group(2))
             if w:
                 sig += ":" + re.sub(r"[^A-Za-z_:]+", "_", (w.group(2) or w.group(1)))[:48].strip("_")
         return "violation", sig, m.group(2)[:1500]
@@ -172,6 +174,13 @@ def read_stats(path):
     except OSError:
         pass
     return d
+
+
+def note_known(ctx, stats):
+    """per-site counts of allowed UBSan reports and of skipped known inputs -> ctx.extra (summed over shards by core)"""
+    for k, v in stats.items():
+        if k.startswith("known_ub_") or k.startswith("skipped_known_"):
+            ctx.extra[k] = ctx.extra.get(k, 0) + v
 
 
 def read_hashes(path):
@@ -280,6 +289,7 @@ def fuzz_job(ctx, target, runs, tag, seeded=True):
     ctx.event("A:%s:calls_failed" % short, tot.get("calls_failed", 0))
     ctx.event("A:%s:calls_ok" % short, tot.get("calls_ok", 0))
     ctx.evaluations += calls
+    note_known(ctx, tot)
     ctx.nt.update("A%s" % h for h in hashes)
     info.update({"execs": tot.get("execs", 0), "oracle_calls": calls, "wall_s": round(wall, 1), "cpu_s": round(cpu_s, 1),
                  "exec_per_cpu_s": round(tot.get("execs", 0) / max(cpu_s, 1e-3), 1), "exec_per_wall_s": round(tot.get("execs", 0) / max(wall, 1e-3), 1),
@@ -452,7 +462,7 @@ _runner = None
 def get_runner(ctx):
     global _runner
     if _runner is not None and (not _runner.alive() or len(_runner.history) >= BATCH):
-        _runner.close()
+        note_known(ctx, _runner.close())
         _runner = None
     if _runner is None:
         _runner = Runner(os.path.join(ctx.scratch_dir(), "api"))
@@ -616,5 +626,5 @@ def run(ctx):
     # engine B
     ctx.hyp(G.api_case(), lambda c: check_api(c, ctx, persistent=True), max(int(GRAMMAR_CASES[ctx.tier] * SCALE), 20), "grammar")
     if _runner is not None:
-        st = _runner.close()
+        note_known(ctx, _runner.close())
         _runner = None
